@@ -256,6 +256,8 @@ class Scheduler(object):
         kids = [h.idx for h in w.hosts if h.forkemu.children and h.forkemu.pending_children()]
         if kids:
             items.append((s['w_child'], 'child'))
+            if s.get('w_childkill', 0) > 0:
+                items.append((s['w_childkill'], 'childkill'))
         self.extra_choices(items)
         if not items:
             return [max(dt, 0.01), 'nop']
@@ -314,6 +316,8 @@ class Scheduler(object):
             return [dt, 'jump', rng.choice(ups), rng.choice([0.5, 2.0, 10.0])]
         if k == 'child':
             return [dt, 'child', rng.choice(kids)]
+        if k == 'childkill':
+            return [dt, 'childkill', rng.choice(kids)]
         return self.build_extra(k, dt)
 
     def build_extra(self, k, dt):
